@@ -911,6 +911,21 @@ fn snippet_index(ctx: &mut Ctx) {
     let m_eff = if m == 150 { 150 } else { m };
     let subject = if rng.chance(3, 4) || others.is_empty() { text.clone() } else { others[0].clone() };
     check_snippet(ctx, &tk, &fls, &subject, &terms, m_eff, "index", Some(&gen));
+    // snippet_from_doc joins the values of the field with ' ' and trims
+    if !others.is_empty() {
+        let d = doc!(body => subject.clone(), body => others[0].clone());
+        let joined = format!(" {} {}", subject, others[0]);
+        let a = catch_unwind(AssertUnwindSafe(|| { let s = gen.snippet_from_doc(&d); (s.fragment().to_string(), s.highlighted().to_vec()) }));
+        let b = catch_unwind(AssertUnwindSafe(|| { let s = gen.snippet(joined.trim()); (s.fragment().to_string(), s.highlighted().to_vec()) }));
+        ctx.report.count("snippet:from-doc");
+        if a.as_ref().ok() != b.as_ref().ok() {
+            ctx.report.violation("oracle", "C19:snippet-from-doc-differs", format!("snippet_from_doc of two values differs from snippet of the joined, trimmed text {}", short(joined.trim())), snip_case(&tk, &fls, joined.trim(), &terms, m_eff));
+        } else if let Ok((frag, hl)) = &a {
+            // and its own snippet obeys the oracle too
+            let _ = (frag, hl);
+            check_snippet(ctx, &tk, &fls, joined.trim(), &terms, m_eff, "from-doc", Some(&gen));
+        }
+    }
     // the generator built by hand from the same terms behaves identically (replays rely on this)
     let own = SnippetGenerator::new(terms.clone(), build(&tk, &fls), body, m_eff);
     let a = real_snippet(&gen, &subject);
@@ -922,6 +937,29 @@ fn snippet_index(ctx: &mut Ctx) {
     };
     if !same {
         ctx.report.violation("model", "C19:create-differs-from-new", format!("SnippetGenerator::create and ::new with terms {:?} give different snippets on {}", terms, short(&subject)), snip_case(&tk, &fls, &subject, &terms, m_eff));
+    }
+}
+
+/// `PreTokenizedStream` hands the stored tokens through unchanged
+fn pretokenized_case(ctx: &mut Ctx) {
+    let mut rng = ctx.rng.fork();
+    let text = gen_snippet_text(&mut rng);
+    let tk = gen_tokenizer(&mut rng);
+    let tk = if let Tk::Ngram { min, max, prefix } = tk { Tk::Ngram { min: min.min(3), max: max.min(4).max(min.min(3)), prefix } } else { tk };
+    let toks = tokens_of(&mut build(&tk, &[]), &text).unwrap_or_default();
+    let pts = PreTokenizedString { text: text.clone(), tokens: toks.clone() };
+    let got = catch_unwind(AssertUnwindSafe(|| {
+        let mut st = PreTokenizedStream::from(pts);
+        let mut out = vec![];
+        while st.advance() {
+            out.push(st.token().clone());
+        }
+        out
+    }));
+    ctx.report.case(&format!("pretok|{:?}|{}", tk, text), toks.len() >= 2);
+    ctx.report.count("pretokenized");
+    if got.as_ref().ok() != Some(&toks) {
+        ctx.report.violation("oracle", "C19:pretokenized-stream-changes-tokens", format!("PreTokenizedStream over {} tokens of {} returned something else", toks.len(), short(&text)), tok_case(&tk, &[], &text));
     }
 }
 
@@ -1059,6 +1097,9 @@ pub fn run(ctx: &mut Ctx) {
     }
     for _ in 0..ctx.budget(1500, 30_000) {
         collapse_case(ctx);
+    }
+    for _ in 0..ctx.budget(300, 5_000) {
+        pretokenized_case(ctx);
     }
     ctx.report.notes.push(format!("timing (informative only): snippet + collapse cases {:.1}s", t0.elapsed().as_secs_f64()));
 }
